@@ -298,7 +298,7 @@ inputs:
               f11: ${f10[1:-1]}
 orchestration:
   type: byKeySet
-  keys: [app]
+  keys: [app, f16]
   tag: static.tag
 metricKeys: [f10]
 transformations:
